@@ -215,3 +215,40 @@ Definition stats_of (version : N) (h : v2hdr) (roots : list bytes) (blocks : lis
           (list_avg cl) (list_max cl) (list_min0 cl)
           (list_avg dl) (list_max dl) (list_min0 dl)
           index_codec.
+
+(* ---- layer B for Inspect(false) ----------------------------------------------------------- *)
+(* "the stream is a final section whose CID is complete but whose data is cut short":
+   Some (cid, its parts, cid length, promised block length) *)
+Definition cut_last (o : ropts) (t : bytes) : option (bytes * cidp * N * N) :=
+  match read_uv t with
+  | VOk l rest _ =>
+      if (l =? 0) && o_zeof o then None
+      else if o_maxs o <? l then None
+      else if blen rest <? l then
+        match cid_from_reader rest with
+        | CfrOk cn c p _ => if l <? cn then None else Some (c, p, cn, l - cn)
+        | _ => None
+        end
+      else None
+  | _ => None
+  end.
+
+Section Tail.
+  Variable hok : bytes -> bytes -> option bool.
+  Variable hdrdec : bytes -> option (list bytes * N).
+  (* the stream at which a scan stopped *)
+  Fixpoint scan_tail (fuel : nat) (o : ropts) (s : bytes) : bytes :=
+    match fuel with
+    | O => s
+    | S f => match next_block hok o s with
+             | Err _ => s
+             | Ok (_, rest) => scan_tail f o rest
+             end
+    end.
+  (* NewBlockReader + Next until it fails: what was left unread of the section stream *)
+  Definition br_read_tail (o : ropts) (file : bytes) : bytes :=
+    match br_open hdrdec o file with
+    | Err _ => []
+    | Ok (_, _, s, _, _) => scan_tail (S (length s)) o s
+    end.
+End Tail.
